@@ -229,6 +229,9 @@ func (ss *Sorts) sortOf(t types.Type) Sort {
 		if a, ok := ss.tparams[tp.Obj().Name()]; ok {
 			return ss.sortOf(a)
 		}
+		if integerConstraint(tp) != "" {
+			return SInt
+		}
 		name := Sort("TP_" + tp.Obj().Name())
 		ss.declare(&sortInfo{Name: name, Kind: "tparam", Decl: fmt.Sprintf("(declare-sort %s 0)", name), GoType: t})
 		return name
@@ -601,7 +604,7 @@ const prelude = `
 (declare-fun gs.at (Str Int) Int)
 (declare-fun gs.sub (Str Int Int) Str)
 (declare-fun gs.cat (Str Str) Str)
-(assert (forall ((s Str)) (! (>= (gs.len s) 0) :pattern ((gs.len s)))))
+(assert (forall ((s Str)) (! (and (>= (gs.len s) 0) (<= (gs.len s) 4611686018427387904)) :pattern ((gs.len s)))))
 (assert (forall ((s Str) (i Int)) (! (and (<= 0 (gs.at s i)) (< (gs.at s i) 256)) :pattern ((gs.at s i)))))
 (assert (forall ((s Str) (i Int) (j Int)) (! (=> (and (<= 0 i) (<= i j) (<= j (gs.len s))) (= (gs.len (gs.sub s i j)) (- j i))) :pattern ((gs.sub s i j)))))
 (assert (forall ((s Str) (i Int) (j Int) (k Int)) (! (=> (and (<= 0 i) (<= i j) (<= j (gs.len s)) (<= 0 k) (< k (- j i))) (= (gs.at (gs.sub s i j) k) (gs.at s (+ i k)))) :pattern ((gs.at (gs.sub s i j) k)))))
@@ -614,3 +617,58 @@ const prelude = `
 (assert (forall ((e Err)) (! (err.is e e) :pattern ((err.is e e)))))
 (assert (forall ((e Err)) (! (=> (not (= e err.nil)) (not (err.is err.nil e))) :pattern ((err.is err.nil e)))))
 `
+
+// integerConstraint: "signed"/"unsigned"/"integer" when every type in the
+// type set of the constraint is an integer type.
+func integerConstraint(tp *types.TypeParam) string {
+	iface, ok := tp.Constraint().Underlying().(*types.Interface)
+	if !ok {
+		return ""
+	}
+	allSigned, allUnsigned, any := true, true, false
+	var walk func(t types.Type) bool
+	walk = func(t types.Type) bool {
+		switch x := t.(type) {
+		case *types.Union:
+			for i := 0; i < x.Len(); i++ {
+				if !walk(x.Term(i).Type()) {
+					return false
+				}
+			}
+			return true
+		case *types.Basic:
+			if x.Info()&types.IsInteger == 0 {
+				return false
+			}
+			any = true
+			if x.Info()&types.IsUnsigned != 0 {
+				allSigned = false
+			} else {
+				allUnsigned = false
+			}
+			return true
+		case *types.Interface:
+			for i := 0; i < x.NumEmbeddeds(); i++ {
+				if !walk(x.EmbeddedType(i)) {
+					return false
+				}
+			}
+			return x.NumEmbeddeds() > 0 && x.NumMethods() == 0
+		case *types.Named:
+			return walk(x.Underlying())
+		case *types.Alias:
+			return walk(types.Unalias(x))
+		}
+		return false
+	}
+	if !walk(iface) || !any {
+		return ""
+	}
+	if allSigned {
+		return "signed"
+	}
+	if allUnsigned {
+		return "unsigned"
+	}
+	return "integer"
+}
